@@ -176,10 +176,61 @@ func And(xs ...*Term) *Term {
 			out = append(out, x)
 		}
 	}
-	for _, x := range out {
+	changed := false
+	for i, x := range out {
 		if x.op == OpNot && seen[x.args[0].id] {
 			return TS.False
 		}
+		// not(and(ys)) with every y among the conjuncts: contradiction
+		if x.op == OpNot && x.args[0].op == OpAnd {
+			all := true
+			for _, y := range x.args[0].args {
+				if !seen[y.id] {
+					all = false
+					break
+				}
+			}
+			if all {
+				return TS.False
+			}
+		}
+		// or(zs): absorbed if some z is a conjunct; unit resolution if not(z) is a conjunct
+		if x.op == OpOr {
+			absorbed := false
+			var keep []*Term
+			for _, z := range x.args {
+				if seen[z.id] {
+					absorbed = true
+					break
+				}
+				if z.op == OpNot && seen[z.args[0].id] {
+					continue
+				}
+				if z.op == OpNot && z.args[0].op == OpAnd {
+					all := true
+					for _, y := range z.args[0].args {
+						if !seen[y.id] {
+							all = false
+							break
+						}
+					}
+					if all {
+						continue
+					}
+				}
+				keep = append(keep, z)
+			}
+			if absorbed {
+				out[i] = TS.True
+				changed = true
+			} else if len(keep) != len(x.args) {
+				out[i] = Or(keep...)
+				changed = true
+			}
+		}
+	}
+	if changed {
+		return And(out...)
 	}
 	if len(out) == 0 {
 		return TS.True
